@@ -117,12 +117,6 @@ structure LseShapeN (s s' : State) (t : Tid) (fr : Frame) : Prop where
   dd : ∀ log, s'.pool.isSome = true → 1 ≤ lsDjAt s' t → 1 ≤ lsDjAt s t ∨
         (bottomFr fr = true ∧ lsSpawnW fr = 0 ∧ lsTc s' = lsTc s ∧
           (lsM2At s t ≤ lsTc s → lsAt log s' t + lsTc s = lsAt log s t))
-  m2 : s'.pool.isSome = true → (ncFr fr = true → lsM2At s t ≤ lsTc s → lsM2At s' t ≤ lsTc s') ∧
-        (ncFr fr = false → lsM2At s' t ≤ lsM2At s t)
-  nth0 : s'.pool.isSome = true → s'.nthreads = s.nthreads → lsSpawnW fr = 0
-  ra : s'.pool.isSome = true → 1 ≤ lsRaAt s' t →
-        lsMinT s' < lsTc s' ∨ (1 ≤ lsRaAt s t ∧ lsTc s ≤ lsTc s')
-  dec : s'.pool.isSome = true → (lsTc s' < lsTc s → fr = .runRetAfter) ∧ lsMinT s' = lsMinT s
 
 set_option maxHeartbeats 32000000 in
 theorem lseShapeN (s : State) (t : Tid) (th : Thread) (fr : Frame) (rest : List Frame)
@@ -152,11 +146,6 @@ theorem lseShapeN (s : State) (t : Tid) (th : Thread) (fr : Frame) (rest : List 
       · intro log
         simp [lsDjAt, lsDJ, lsAt, lsVal, lsW, lsTc, hp, hth, hst, setThread, upd_same, Thread.cont, lsFr, lsRingOf, lsSpawnW]
         try (intro h; exact Or.inl h)
-      · simp [ncFr, lsM2At, lsM2, hp, hth, hst, setThread, upd_same, Thread.cont]
-      · simp [lsSpawnW]
-      · simp [lsRaAt, lsRA, lsTc, lsMinT, hp, hth, hst, setThread, upd_same, Thread.cont]
-        try (intro h; exact Or.inr h)
-      · simp [lsTc, lsMinT, hp, setThread]
   case tExit =>
     have hB := hcb (by simp [lseC])
     have h0 : ∀ rb rj log, lsStk rb rj log none rest = 0 := fun rb rj log => lsStk_base rb rj log none hB
@@ -173,10 +162,6 @@ theorem lseShapeN (s : State) (t : Tid) (th : Thread) (fr : Frame) (rest : List 
       · simp [lsDjAt, lsDJ, hp, hth, hst, setThread, upd_same, h1]
       · intro log
         simp [lsDjAt, lsDJ, lsAt, lsVal, lsW, lsTc, hp, hth, hst, setThread, upd_same, lsFr, lsRingOf, lsSpawnW]
-      · simp [lsM2At, lsM2, lsTc, hp, hth, hst, setThread, upd_same]
-      · simp [lsSpawnW]
-      · simp [lsRaAt, lsRA, lsTc, lsMinT, hp, hth, hst, setThread, upd_same]
-      · simp [lsTc, lsMinT, hp, setThread]
   all_goals
     rcases hp : s.pool with _ | p
   all_goals
@@ -205,6 +190,65 @@ theorem lseShapeN (s : State) (t : Tid) (th : Thread) (fr : Frame) (rest : List 
         setFut, withFault, destroySig, upd_same, Thread.cont, lsFr, lsRingOf, lsSpawnW, lsCapt, lsServ, lsCaptPc,
         lsServPc, setFsState_tc, *]
       try grind
+
+structure LseShapeM (s s' : State) (t : Tid) (fr : Frame) : Prop where
+  m2 : s'.pool.isSome = true → (ncFr fr = true → lsM2At s t ≤ lsTc s → lsM2At s' t ≤ lsTc s') ∧
+        (ncFr fr = false → lsM2At s' t ≤ lsM2At s t)
+  nth0 : s'.pool.isSome = true → s'.nthreads = s.nthreads → lsSpawnW fr = 0
+  ra : s'.pool.isSome = true → 1 ≤ lsRaAt s' t →
+        lsMinT s' < lsTc s' ∨ (1 ≤ lsRaAt s t ∧ lsTc s ≤ lsTc s')
+  dec : s'.pool.isSome = true → (lsTc s' < lsTc s → fr = .runRetAfter) ∧ lsMinT s' = lsMinT s
+
+
+set_option maxHeartbeats 32000000 in
+theorem lseShapeM (s : State) (t : Tid) (th : Thread) (fr : Frame) (rest : List Frame)
+    (hth : s.threads t = some th) (hst : th.stack = fr :: rest) (hnr : lsRingOf fr = none)
+    (hrep : s.cfg.repaired = true) (hni : fr ≠ .mInit)
+    (hnc : ∀ c, fr = .cRdTp2 c → s.tp = true)
+    (hcb : lseC fr = true → LsAllB rest)
+    (htc : fr = .runRetAfter → th.retB = true → 0 < lsTc s) :
+    LseShapeM s (stepFrame s t th fr).1 t fr := by
+  have hR : lseC fr = true → lsum lsRA rest = 0 := fun h => lsRA_base (hcb h)
+  have hD : lseC fr = true → lsum lsDJ rest = 0 := fun h => lsDJ_base (hcb h)
+  have hM : lseC fr = true → lsum lsM2 rest = 0 := fun h => lsM2_base (hcb h)
+  cases fr
+  case ring pc => cases hnr
+  case mInit => exact absurd rfl hni
+  case cRdTp2 c =>
+    have htp := hnc c rfl
+    rcases hp : s.pool with _ | p
+    all_goals
+      simp only [stepFrame, htp, if_true]
+      constructor
+      · simp [ncFr, lsM2At, lsM2, hp, hth, hst, setThread, upd_same, Thread.cont]
+      · simp [lsSpawnW]
+      · simp [lsRaAt, lsRA, lsTc, lsMinT, hp, hth, hst, setThread, upd_same, Thread.cont]
+        try (intro h; exact Or.inr h)
+      · simp [lsTc, lsMinT, hp, setThread]
+  case tExit =>
+    have hB := hcb (by simp [lseC])
+    have h0 : ∀ rb rj log, lsStk rb rj log none rest = 0 := fun rb rj log => lsStk_base rb rj log none hB
+    have h1 := lsDJ_base hB
+    have h2 := lsRA_base hB
+    rcases hp : s.pool with _ | p
+    all_goals
+      simp only [stepFrame]
+      constructor
+      · simp [lsM2At, lsM2, lsTc, hp, hth, hst, setThread, upd_same]
+      · simp [lsSpawnW]
+      · simp [lsRaAt, lsRA, lsTc, lsMinT, hp, hth, hst, setThread, upd_same]
+      · simp [lsTc, lsMinT, hp, setThread]
+  all_goals
+    rcases hp : s.pool with _ | p
+  all_goals
+    simp only [stepFrame, hp]
+    repeat' split
+  all_goals
+    try simp [lseC, lsC] at hR hD hM
+  all_goals
+    try simp [lsTc, hp] at htc
+  all_goals
+    constructor
     · simp [lsM2At, lsM2, ncFr, lsTc, hp, hth, hst, hrep, setThread, setSig, setPool, setFut, withFault, destroySig,
         upd_same, Thread.cont, setFsState_tc, *]
       try grind
@@ -215,5 +259,6 @@ theorem lseShapeN (s : State) (t : Tid) (th : Thread) (fr : Frame) (rest : List 
     · simp [lsTc, lsMinT, hp, setThread, setSig, setPool, setFut, withFault, destroySig, setFsState_tc,
         setFsState_minT, *]
       try grind
+
 
 end Nstd.Future.LS
